@@ -139,14 +139,19 @@ func (n *NodeProcessor) closed() bool {
 
 // Statistics returns statistics for periodic monitoring.
 func (n *NodeProcessor) Statistics(tags map[string]string) []models.Statistic {
+	// The queue's segments are changed by writes and by the processor goroutine.
+	n.queue.mu.RLock()
+	queueBytes, queueDepth := n.queue.diskUsage(), int64(len(n.queue.segments))
+	n.queue.mu.RUnlock()
+
 	return []models.Statistic{{
 		Name: "hh_processor",
 		Tags: n.defaultTags.Merge(tags),
 		Values: map[string]interface{}{
 			statBytesRead:           atomic.LoadInt64(&n.stats.BytesRead),
 			statBytesWritten:        atomic.LoadInt64(&n.stats.BytesWritten),
-			statQueueBytes:          n.queue.diskUsage(),
-			statQueueDepth:          int64(len(n.queue.segments)),
+			statQueueBytes:          queueBytes,
+			statQueueDepth:          queueDepth,
 			statWriteBlocked:        atomic.LoadInt64(&n.stats.WriteBlocked),
 			statWriteDropped:        atomic.LoadInt64(&n.stats.WriteDropped),
 			statWriteShardReq:       atomic.LoadInt64(&n.stats.WriteShardReq),
